@@ -194,5 +194,14 @@ example : okF (.ge (.int (-100))) = true := by decide
 example : ((genFalse (.ne (.str [102]))).map fun g => (takeN 5 3 g ⟨[], []⟩).values) = some [.str [102]] := by rfl
 example : ((genFalse (.eq (.int 0))).map fun g => (takeN 9 2 g ⟨[], []⟩).values.length) = some 2 := by rfl
 
+
+/-- **C10 in C08's terms** (see `C09_judged_by_C08_evaluator`). -/
+theorem C10_judged_by_C08_evaluator (p : P) (g : GP) (hg : trP p = some g) (hfree : pObjFree p = true)
+    (gen : G) (hgen : genFalse g = some gen) (hok : okF g = true) (raws : List Int) (fuel want : Nat)
+    (x : PyVal) (hx : objFree x = true)
+    (hmem : embed x ∈ (takeN fuel want gen ⟨raws, []⟩).values) : evalPy p x = .ok false := by
+  rw [← evalG_embed p g hg hfree x hx]
+  exact C10_generate_false_sound g gen hgen hok raws fuel want _ hmem
+
 end Gen
 end PyPred
